@@ -339,6 +339,19 @@ def r4(ctx, fs):
                     kdef = canon(n['init'], env, subst=False)
             s = show(kdef)
             ok = '(call to_string left)' in s and '(call to_string right)' in s and '(< left right)' in s
+            if not ok:
+                # the key may be put together along the path (a declaration, then `s_expr += ..` in the arms of the comparison): every path that looks the key
+                # up has compared the two literals and holds a key that mentions both
+                from ..tables import path_values
+                cnk = lambda n: canon(n, env, subst=False)
+                oks = []
+                for p in enum_paths(f.body):
+                    if not any(c[0] == 'if' and 'exprs' in show(cnk(c[1])) for c in p.conds):
+                        continue
+                    key = show(path_values(p, cnk).get('s_expr'))
+                    cmp_ = any(c[0] == 'if' and show(cnk(c[1])) in ('(< left right)', '(< right left)') for c in p.conds)
+                    oks.append('(call to_string left)' in key and '(call to_string right)' in key and cmp_)
+                ok = bool(oks) and all(oks)
             ctx.instance(rid, [f.id, 'key'], {'constructor': f.name, 'key': s[:200], 'symmetric': ok})
             if not ok:
                 ctx.finding(rid, f.id, 'key', 'new_eq: the cache key must contain both literals in a canonical order', loc=f.loc)
